@@ -399,10 +399,10 @@ VecL gen_start_vector(const WorldSpec& w, const MatL& A, int vclass, uint64_t vs
             break;
         }
         case V_TINY:
-            v *= cld(w.scalar == S_FLOAT ? 1e-20L : 1e-150L);
+            v *= cld(w.scalar == S_FLOAT ? 1e-12L : 1e-100L);
             break;
         case V_HUGE:
-            v *= cld(w.scalar == S_FLOAT ? 1e+15L : 1e+150L);
+            v *= cld(w.scalar == S_FLOAT ? 1e+12L : 1e+100L);
             break;
         case V_COORD:
         {
